@@ -10,17 +10,16 @@ Z3_TIMEOUT_MS = int(os.environ.get("VERIF_Z3_TIMEOUT_MS", "20000"))
 CVC5_TIMEOUT_S = int(os.environ.get("VERIF_CVC5_TIMEOUT_S", "30"))
 
 
-def _solve_smt2(args):
-    idx, text, timeout_ms, seed = args
-    t0 = time.time()
+Z3_FIRST_MS = int(os.environ.get("VERIF_Z3_FIRST_MS", "4000"))
+CVC5_FIRST_S = int(os.environ.get("VERIF_CVC5_FIRST_S", "10"))
+
+
+def _z3_once(text, timeout_ms, seed):
     s = z3.Solver()
     s.set("timeout", timeout_ms)
     s.set("random_seed", seed % 1000)
-    try:
-        s.from_string(text)
-        r = s.check()
-    except z3.Z3Exception as e:
-        return idx, "error", time.time() - t0, str(e)[:400], "z3"
+    s.from_string(text)
+    r = s.check()
     model = ""
     if r == z3.sat:
         m = s.model()
@@ -31,24 +30,39 @@ def _solve_smt2(args):
             except Exception:  # noqa
                 pass
         model = "\n".join(sorted(items))[:6000]
-    res = str(r)
-    backend = "z3"
-    if r == z3.unknown:
-        c = _cvc5(text)
-        if c in ("unsat", "sat"):
-            # a cvc5 `sat` on a z3-unknown query is not used as a refutation (no model replay): keep unknown unless unsat
-            if c == "unsat":
-                res, backend = "unsat", "cvc5"
-    return idx, res, time.time() - t0, model, backend
+    return str(r), model
 
 
-def _cvc5(text):
+def _solve_smt2(args):
+    """portfolio in sequence: z3 briefly, cvc5 briefly (it decides several sequence/string queries z3 leaves open), z3 with the full
+    budget, cvc5 with the full budget.  A cvc5 `sat` is never used as a refutation (no model to replay): only its `unsat` counts."""
+    idx, text, timeout_ms, seed = args
+    t0 = time.time()
+    try:
+        res, model = _z3_once(text, min(Z3_FIRST_MS, timeout_ms), seed)
+        if res != "unknown":
+            return idx, res, time.time() - t0, model, "z3"
+        if _cvc5(text, CVC5_FIRST_S) == "unsat":
+            return idx, "unsat", time.time() - t0, "", "cvc5"
+        if timeout_ms > Z3_FIRST_MS:
+            res, model = _z3_once(text, timeout_ms, seed + 1)
+            if res != "unknown":
+                return idx, res, time.time() - t0, model, "z3"
+        if CVC5_TIMEOUT_S > CVC5_FIRST_S and _cvc5(text, CVC5_TIMEOUT_S) == "unsat":
+            return idx, "unsat", time.time() - t0, "", "cvc5"
+    except z3.Z3Exception as e:
+        return idx, "error", time.time() - t0, str(e)[:400], "z3"
+    return idx, "unknown", time.time() - t0, "", "z3"
+
+
+def _cvc5(text, limit_s=None):
+    limit_s = limit_s or CVC5_TIMEOUT_S
     try:
         with tempfile.NamedTemporaryFile("w", suffix=".smt2", delete=False) as f:
             f.write("(set-logic ALL)\n" + text + "\n")
             p = f.name
-        r = subprocess.run(["/usr/bin/cvc5", "--strings-exp", f"--tlimit={CVC5_TIMEOUT_S * 1000}", p], capture_output=True, text=True,
-                           timeout=CVC5_TIMEOUT_S + 5)
+        r = subprocess.run(["/usr/bin/cvc5", "--strings-exp", f"--tlimit={limit_s * 1000}", p], capture_output=True, text=True,
+                           timeout=limit_s + 5)
         os.unlink(p)
         out = r.stdout.strip().splitlines()
         return out[0] if out else "unknown"
@@ -99,15 +113,60 @@ def _discharge_forked(obligations, rules=None, seed=0, jobs=None, extra_axioms=N
         return obligations
     _G.update(obs=obligations, rules=rules, seed=seed, extra=list(extra_axioms or []))
     jobs = jobs or min(16, max(1, os.cpu_count() or 1))
-    if len(todo) < 4 or jobs == 1:
-        results = [_work(i) for i in todo]
-    else:
-        ctx = mp.get_context("fork")
-        with ctx.Pool(processes=jobs) as pool:
-            results = pool.map(_work, todo, chunksize=max(1, len(todo) // (jobs * 6)))
+    results = _run_children(todo, jobs, hard_limit=(Z3_FIRST_MS + Z3_TIMEOUT_MS) / 1000.0 + CVC5_FIRST_S + CVC5_TIMEOUT_S + 40)
     for idx, res, dt, model, backend in results:
         obligations[idx].result = {"verdict": res, "time": dt, "model": model, "backend": backend}
     return obligations
+
+
+def _child(i, conn):
+    try:
+        conn.send(_work(i))
+    except BaseException as e:  # noqa
+        try:
+            conn.send((i, "error", 0.0, f"worker: {e!r}"[:400], "z3"))
+        except Exception:  # noqa
+            pass
+    finally:
+        conn.close()
+        os._exit(0)
+
+
+def _run_children(todo, jobs, hard_limit):
+    """one forked child per obligation (copy-on-write view of the obligations), at most `jobs` at a time; a child that outlives the
+    solver's own timeouts (z3 occasionally ignores them inside the sequence solver) is killed and its obligation is `unknown`"""
+    import multiprocessing as mp
+    from multiprocessing.connection import wait
+    ctx = mp.get_context("fork")
+    pending = list(reversed(todo))
+    running = {}        # conn -> (proc, idx, t0)
+    results = []
+    while pending or running:
+        while pending and len(running) < jobs:
+            i = pending.pop()
+            pr, pw = ctx.Pipe(duplex=False)
+            p = ctx.Process(target=_child, args=(i, pw), daemon=True)
+            p.start()
+            pw.close()
+            running[pr] = (p, i, time.time())
+        ready = wait(list(running), timeout=1.0)
+        for c in ready:
+            p, i, t0 = running.pop(c)
+            try:
+                results.append(c.recv())
+            except (EOFError, OSError):
+                results.append((i, "error", time.time() - t0, "solver process died", "z3"))
+            c.close()
+            p.join(timeout=5)
+        now = time.time()
+        for c, (p, i, t0) in list(running.items()):
+            if now - t0 > hard_limit:
+                p.kill()
+                p.join(timeout=5)
+                c.close()
+                del running[c]
+                results.append((i, "unknown", now - t0, "hard wall-clock limit: solver ignored its timeout", "z3"))
+    return results
 
 
 def _discharge_serial_gen(obligations, rules=None, seed=0, jobs=None, extra_axioms=None):
